@@ -33,6 +33,10 @@ WithGrad(doc, ls) ==
          go(i, acc) == IF i > Len(ls) THEN acc ELSE go(i + 1, acc \o one(ls[i]))
      IN go(1, <<>>)
 
+(* radial gradients (with or without a focal point): compare the representation-independent invariants *)
+InvClose(a, b) == /\ \A i \in 1..4 : Abs(a[i] - b[i]) <= 3                         \* points: 3/64 unit
+                  /\ \A i \in 5..7 : Abs(a[i] - b[i]) * 50 <= Abs(a[i]) + Abs(b[i]) + 100   \* conic: 2% + slack
+
 TClose(kind, a, b) == IF kind = "linear" THEN Abs(a - b) <= 5 ELSE Abs(a - b) <= 5 + (Abs(a) \div 32)
 
 Judge(c) ==
@@ -46,16 +50,24 @@ Judge(c) ==
            \* gradient parameter: pairwise over the covering layers (same length when the stacks agree)
            TBad(p) == LET cs == Covering(src, SrcIn, p)  co == Covering(out, OutIn, p)
                       IN Len(cs) = Len(co) /\ \E k \in 1..Len(cs) :
-                           /\ cs[k].kind = "grad" /\ cs[k].gr.kind \in {"linear", "radial"}
+                           /\ cs[k].kind = "grad" /\ cs[k].gr.kind \in {"linear", "radial"} /\ cs[k].gr.num
                            /\ co[k].tg # <<>> /\ co[k].tg[GridIdx(c.doc.vb, p)] # -99999
                            /\ GradT(cs[k], p)[1]
                            /\ ~TClose(cs[k].gr.kind, GradT(cs[k], p)[2], co[k].tg[GridIdx(c.doc.vb, p)])
            badT == { p \in smp : OutStack(out, p) = S(p) /\ S(p) # <<>> /\ Robust(p) /\ TBad(p) }
+           IBad(p) == LET cs == Covering(src, SrcIn, p)  co == Covering(out, OutIn, p)
+                      IN Len(cs) = Len(co) /\ \E k \in 1..Len(cs) :
+                           /\ cs[k].kind = "grad" /\ cs[k].gr.kind \in {"radial", "radialf"} /\ cs[k].gr.num
+                           /\ co[k].gp # <<>> /\ RadialInv(cs[k])[1]
+                           /\ ~InvClose(RadialInv(cs[k])[2], co[k].gp)
+           badI == { p \in smp : OutStack(out, p) = S(p) /\ S(p) # <<>> /\ Robust(p) /\ IBad(p) }
            nG == Cardinality({ k \in 1..Len(src) : src[k].kind = "grad" })
        IN IF bad # {} THEN LET p == CHOOSE p \in bad : TRUE
                            IN "BAD:render@" \o ToString(p[1]) \o "," \o ToString(p[2])
           ELSE IF badT # {} THEN LET p == CHOOSE p \in badT : TRUE
                                  IN "BAD:gradient-parameter@" \o ToString(p[1]) \o "," \o ToString(p[2])
+          ELSE IF badI # {} THEN LET p == CHOOSE p \in badI : TRUE
+                                 IN "BAD:radial-gradient-geometry@" \o ToString(p[1]) \o "," \o ToString(p[2])
           ELSE IF nG > 0 THEN "ok:gradient" ELSE IF src = <<>> THEN "ok:empty" ELSE "ok:render"
 
 NCases == Len(Cases)
